@@ -545,7 +545,7 @@ for name, props, inst, tags, tier in [
     ("bvec_splice_exact_fit_up1", ["C08"], "BumpVec<u8> capacity 4, 2 elements, splice(0..1, 3 elements): exact fit, no reallocation", [], "thorough"),
     ("bvec_splice_exact_fit_down1", ["C08"], "same, down", [], "thorough"),
 ]:
-    A("bvec", name, props, inst, tags=tags, tier=tier, mem_gb=(20 if "split" in name else 10), timeout_s=(2400 if "split" in name else 1800), bounds=BVB)
+    A("bvec", name, props, inst, tags=tags, tier=tier, mem_gb=(13 if "split" in name else 10), timeout_s=(2400 if "split" in name else 1800), bounds=BVB)
     HARNESSES[-1]["unwind"] = 6 if ("into_iter" in name or "splice" in name) else (8 if "resize" in name else (5 if ("shrink" in name or "drops" in name) else 3))
 
 # slice-level typed entry points (C10 position clause, C13 opt-out, C17 typed vs dyn, C01/C02 for shrink_slice)
